@@ -182,6 +182,21 @@ def check_graph(ctx, rep, spec, i_graph):
                 rep.disagree('equality-after-edit', dict(inp, op='add-constraint'), {'impl_eq': True, 'model_eq': False}, dict(cls, edit='add-constraint'))
         except Exception:
             rep.count('edit-exc:add-constraint')
+        # a second constraint added to one side of a copy of a graph that ALREADY holds one (the constraint list of a
+        # copy must be its own): both sides must keep their own number of constraints and compare unequal
+        try:
+            a1 = g.copy().constrain_choices(ChoiceConstraintType.LINKED, sel[:1], remove_infeasible_choices=False)
+            n1 = len(a1.get_choice_constraints())
+            b1 = a1.copy()
+            b2 = b1.constrain_choices(ChoiceConstraintType.LINKED, sel[1:2], remove_infeasible_choices=False)
+            rep.case(dict(inp, op='add-second-constraint'), nontrivial=True)
+            if b2 == a1 or hash(b2) == hash(a1) or len(a1.get_choice_constraints()) != n1 or \
+                    len(b2.get_choice_constraints()) != n1 + 1:
+                rep.disagree('equality-after-edit', dict(inp, op='add-second-constraint'),
+                             {'impl_eq': b2 == a1, 'model_eq': False, 'n_cons_unedited_side': [n1, len(a1.get_choice_constraints())]},
+                             dict(cls, edit='add-second-constraint'))
+        except Exception:
+            rep.count('edit-exc:add-second-constraint')
     # pickle round trip
     try:
         g2 = pickle.loads(pickle.dumps(g))
